@@ -65,6 +65,10 @@ namespace except
         template <typename... Args>
         inline std::string make_string(Args&&... args)
         {
+#if defined(NITRO_VERIF) && defined(NITRO_VERIF_NO_MESSAGES)
+            // verification hook: exception message text is not the subject of the check; skip formatting
+            return std::string();
+#endif
             std::stringstream msg;
 
             detail::make_exception<Args...>()(msg, std::forward<Args>(args)...);
